@@ -245,7 +245,7 @@ Record gst := mkG {
   cur : option nat;                   (* instance whose static config file is linked under the name *)
   tags : list nat;                    (* nodes that have a service tag file *)
   (* ghost, never read by a step *)
-  glog : list (nat * result)          (* (thread, result) of every returned call, oldest first *)
+  glog : list (nat * opkind * result) (* (thread, inner call that produced it, result) of every returned call, oldest first *)
 }.
 
 Inductive op := OCreate (r : req) | OOpen (r : req) | OOoc (r : req) | ODrop (k : nat).
@@ -302,7 +302,7 @@ Definition get_inst (g : gst) (i : nat) : option inst := nth_error (insts g) i.
 Definition set_inst (g : gst) (i : nat) (x : inst) : gst := mkG (upd (insts g) i x) (cur g) (tags g) (glog g).
 Definition set_cur (g : gst) (c : option nat) : gst := mkG (insts g) c (tags g) (glog g).
 Definition set_tags (g : gst) (ts : list nat) : gst := mkG (insts g) (cur g) ts (glog g).
-Definition add_log (g : gst) (t : nat) (r : result) : gst := mkG (insts g) (cur g) (tags g) (glog g ++ [(t, r)]).
+Definition add_log (g : gst) (t : nat) (k : opkind) (r : result) : gst := mkG (insts g) (cur g) (tags g) (glog g ++ [(t, k, r)]).
 Definition add_inst (g : gst) (x : inst) : gst := mkG (insts g ++ [x]) (cur g) (tags g) (glog g).
 
 Definition has_tag (g : gst) (t : nat) : bool := existsb (Nat.eqb t) (tags g).
@@ -318,7 +318,7 @@ Definition push_err (es : list (side * err)) (e : side * err) : list (side * err
 (* the public operation returns r *)
 Definition op_done (t : nat) (g : gst) (l : lst) (r : result) (hs : list (nat * scfg)) (nr : nat) (es : list ev)
   : option (gst * lst * list ev) :=
-  Some (add_log g t r, mkL (prog l) Idle None KOpen None 0 hs nr (rets l ++ [r]), es ++ [ERet r]).
+  Some (add_log g t (cur_kind l) r, mkL (prog l) Idle None KOpen None 0 hs nr (rets l ++ [r]), es ++ [ERet r]).
 
 (* open_or_create's loop tail: elapsed >= creation_timeout ? fail : sleep and call open again *)
 Definition ooc_tail (P : params) (t : nat) (g : gst) (l : lst) (o : oocst) (es : list ev) : option (gst * lst * list ev) :=
@@ -442,7 +442,7 @@ Definition step (P : params) (t : nat) (g : gst) (l : lst) : option (gst * lst *
           let hs := firstn k (handles l) ++ skipn (S k) (handles l) in
           let l1 := mkL p Idle None KOpen None 0 hs (nreg l) (rets l) in
           (* registered_services().remove: only the node's last handle of the service cleans up *)
-          if Nat.eqb (nreg l) 1 then Some (g, set_pc l1 (DRmTag h), [])
+          if Nat.eqb (nreg l) 1 then Some (g, mkL p (DRmTag h) None KOpen None 0 hs 0 (rets l), [])
           else op_done t g l1 RDropped hs (Nat.pred (nreg l)) []
         end
       end
@@ -541,7 +541,7 @@ Definition step (P : params) (t : nat) (g : gst) (l : lst) : option (gst * lst *
     end
   | CStChmod1 own i => Some (g, set_pc l (CStWrite own i), [ECall CChmod BStatic XInit])
   | CStWrite own i =>                           (* unlock: write the serialized config *)
-    with_inst g i (fun x => Some (set_inst g i (upd_st x SWritten), set_pc l (CStChmod2 own i), [ECall CWrite BStatic XOk]))
+    with_inst g i (fun x => Some (set_inst g i (upd_st x (match i_st x with SLocked => SWritten | s => s end)), set_pc l (CStChmod2 own i), [ECall CWrite BStatic XOk]))
   | CStChmod2 own i =>                          (* unlock: FINAL_PERMISSIONS *)
     with_inst g i (fun x =>
       Some (set_inst g i (upd_st x SFinal),
@@ -549,9 +549,9 @@ Definition step (P : params) (t : nat) (g : gst) (l : lst) : option (gst * lst *
   | CRes own i =>
     with_inst g i (fun x => Some (set_inst g i (upd_res x true), set_pc l (CDyOpen own i), [ECall CShmCreate (BRes i) XOk]))
   | CDyOpen own i =>                            (* create_impl: shm_open(O_CREAT|O_EXCL, INIT_PERMISSIONS) *)
-    with_inst g i (fun x => Some (set_inst g i (upd_dy x DCreated true), set_pc l (CDyTrunc own i), [ECall CShmCreate (BDyn i) XOk]))
+    with_inst g i (fun x => Some (set_inst g i (upd_dy x (match i_dy x with DAbsent => DCreated | d => d end) true), set_pc l (CDyTrunc own i), [ECall CShmCreate (BDyn i) XOk]))
   | CDyTrunc own i =>
-    with_inst g i (fun x => Some (set_inst g i (upd_dy x DSized true), set_pc l (CDyFstat own i), [ECall CFtruncate (BDyn i) XOk]))
+    with_inst g i (fun x => Some (set_inst g i (upd_dy x (match i_dy x with DCreated => DSized | d => d end) true), set_pc l (CDyFstat own i), [ECall CFtruncate (BDyn i) XOk]))
   | CDyFstat own i => Some (g, set_pc l (CDyInit own i), [ECall CFstat (BDyn i) XOk])
   | CDyInit own i =>                            (* initializer: DynamicConfig::init + register_node_id(creator) *)
     with_inst g i (fun x =>
